@@ -23,10 +23,11 @@ BUDGET = {'quick': 45, 'thorough': 900}
 
 STEP = st.sampled_from(['+us', '+ms', '+ms', '+s', '+s', '+min', '0', '0', '-us', '-ms', '-s'])
 READER = st.integers(0, 2)
+SUB = st.sampled_from([0, 0, 3, 7])     # tenths of a microsecond added to a *given* timestamp: time.time() / record.created are not whole microseconds
 op_st = st.one_of(
-    st.tuples(st.just('w'), st.integers(9, 60), STEP, st.booleans()),
-    st.tuples(st.just('w'), st.integers(9, 60), STEP, st.booleans()),
-    st.tuples(st.just('w'), st.integers(9, 600), STEP, st.booleans()),
+    st.tuples(st.just('w'), st.integers(9, 60), STEP, st.booleans(), SUB),
+    st.tuples(st.just('w'), st.integers(9, 60), STEP, st.booleans(), SUB),
+    st.tuples(st.just('w'), st.integers(9, 600), STEP, st.booleans(), SUB),
     st.tuples(st.just('r'), READER), st.tuples(st.just('r'), READER), st.tuples(st.just('r'), READER),
     st.tuples(st.just('rb'), READER),
     st.tuples(st.just('tell'), READER),
@@ -63,7 +64,7 @@ def run_case(case):
                 if k == 'w':
                     if w.writer.write_file is False:
                         continue
-                    w.write(op[1], op[2], op[3])
+                    w.write(op[1], op[2], op[3], op[4] if len(op) > 4 else 0)
                     continue
                 if k == 'reopen_w':
                     had_shared = [r for r in w.readers if r.kind == 'shared']
